@@ -171,6 +171,7 @@ inductive Ev
   | foreignTagv (m t : Nat)   -- ... of another shard, series new THERE: the database-level tag value dictionary (GenTagValueID)
   | appendBad            -- a log entry whose payload is not a snappy block (Replica: Uncompress fails)
   | applyBegin           -- partition.replica: Consume, GetMessage; Replica: ValidateSequence
+  | applyGetFail         -- partition.replica: Consume, GetMessage FAILS on an unreadable entry: IgnoreMessage only (no Replica)
   | applyTake            -- WriteRows: GetOrCreateMemoryDatabase (family mutex)
   | applyAcquire         -- WriteRows: db.AcquireWrite()
   | applyWrite           -- WriteRow (names -> metadata/index workers), row.Wait, CompleteWrite
@@ -235,6 +236,16 @@ def beginAt (cfg : Cfg) (st : St) (s : Int) : St :=
 def doApplyBegin (cfg : Cfg) (st : St) : St :=
   if st.inflight.isNone ∧ st.consumed + 1 ≤ st.appended then
     beginAt cfg { st with consumed := st.consumed + 1 } (st.consumed + 1)
+  else st
+
+/-- `partition.replica` when `replicator.GetMessage(seq)` returns an error (the entry cannot be read:
+it carries no usable rows, `none` in the model's log): `replicator.IgnoreMessage(seq)` and nothing
+else — `Replica` is not called, so there is NO `ValidateSequence` and NO `CommitSequence`: the family's
+sequence stays where it was, only the consumer group moves. -/
+def doApplyGetFail (cfg : Cfg) (st : St) : St :=
+  if st.inflight.isNone ∧ st.consumed + 1 ≤ st.appended ∧
+      st.log[(st.consumed + 1).toNat]? = some none then
+    ignoreMsg cfg { st with consumed := st.consumed + 1 } (st.consumed + 1)
   else st
 
 def addNames (st : St) (m t : Nat) : St :=
@@ -367,6 +378,7 @@ def step (cfg : Cfg) (st : St) (e : Ev) : St :=
   | .foreignTagv m t => whenRunning st { st with tagv := st.tagv.create (m, t) }
   | .appendBad => whenRunning st (if st.walGone then st else doAppendBad st)
   | .applyBegin => whenRunning st (if st.walGone then st else doApplyBegin cfg st)
+  | .applyGetFail => whenRunning st (if st.walGone then st else doApplyGetFail cfg st)
   | .applyTake => whenRunning st (doApplyTake cfg st)
   | .applyAcquire => whenRunning st (doApplyAcquire st)
   | .applyWrite => whenRunning st (doApplyWrite st)
